@@ -400,6 +400,16 @@ func checkSinkOwner(p *Program, r *Result) {
 			case "writeSizer.w", "crcWriter.w", "countingCRCWriter.w":
 				continue
 			}
+			// whatever the wrapped-writer field is called: the forwarding Write of an accounting wrapper writes to its own field
+			forwarding := false
+			for _, wt := range []string{"writeSizer", "crcWriter", "countingCRCWriter"} {
+				if strings.HasPrefix(rf, wt+".") && funcName(fn) == "mcap."+wt+".Write" {
+					forwarding = true
+				}
+			}
+			if forwarding {
+				continue
+			}
 			// writeRecord(writer io.Writer, ...) parameter writes are routed by callers to w.w / compressedWriter
 			if _, isParam := c.Value.(*ssa.Parameter); isParam {
 				continue
